@@ -22,6 +22,7 @@ from concurrent.futures import ThreadPoolExecutor
 HERE = os.path.dirname(os.path.abspath(__file__))
 VERIF = os.path.dirname(HERE)
 KLIB = "/root/.kani/kani-0.68.0/library/kani/kani_lib.c"
+MATH = os.path.join(VERIF, "kani", "math_models.c")
 
 CBMC_FLAGS = [
     "--no-malloc-may-fail", "--no-undefined-shift-check", "--no-signed-overflow-check",
@@ -108,7 +109,7 @@ class Scratch:
         out = os.path.join(self.dir, name + ".goto")
         devnull = subprocess.DEVNULL
         steps = [
-            ["goto-cc", h["goto_file"], KLIB, "-o", out],
+            ["goto-cc", h["goto_file"], KLIB, MATH, "-o", out],
             ["goto-cc", out, "--function", h["mangled_name"], "-o", out],
             ["goto-instrument", "--add-library", "--no-malloc-may-fail", out, out],
             ["goto-instrument", "--generate-function-body-options", "assert-false-assume-false",
